@@ -14,7 +14,7 @@ INFO = {
     ],
     "bounds": {
         "quick": {"two_processes": "two schedulers (own experiment, loop and CounterToken instance) on one token directory, one job each, counts enumerated (total 3 requests 2+2; total 1 requests 1+1), watcher notifications of the other process's changes delivered at symbolic times", "jobs": "<=3", "in_process_token": "total and requests symbolic (unbounded ints)", "file_token": "one scheduler instance, totals/requests enumerated 1<=r<=total<=3 (they are written to files)", "schedule_choice_points": 6},
-        "thorough": {"jobs": "<=4", "file_token": "total<=3, one scheduler instance", "schedule_choice_points": 10},
+        "thorough": {"jobs": "<=4", "file_token": "total<=3, one scheduler instance", "schedule_choice_points": 5},
     },
     "stubs": schedlib.STUBS + ["ipc.ipcom().fswatch -> recorded (no watcher event is delivered in the single-instance model: the instance's own releases update its state synchronously)", "threading.Thread in tokens (TokenFile.watch) -> external event"],
     "symbolic_data": True,
@@ -93,23 +93,23 @@ def _filecombos(n, maxtotal):
 
 def conditions(tier):
     conds = []
-    K = 4 if tier == "quick" else 7
+    K = 4 if tier == "quick" else 5
     tmo = 600 if tier == "quick" else 3000
-    shapes = [("indep2", [1, 1]), ("chain2", [1, 1]), ("join3", [1, 1, 1]), ("mixed3", [1, 0, 1])]
+    shapes = [("indep2", [1, 1]), ("chain2", [1, 1]), ("mixed3", [1, 0, 1])]
     if tier == "thorough":
-        shapes += [("indep3", [1, 1, 1]), ("fork3", [1, 1, 1]), ("diamond4", [1, 1, 1, 1]), ("two2", [1, 1, 1, 1])]
+        shapes += [("join3", [1, 1, 1]), ("indep3", [1, 1, 1]), ("fork3", [1, 1, 1]), ("diamond4", [1, 1, 1, 1]), ("two2", [1, 1, 1, 1])]
     for sh, mask in shapes:
         conds.append({"name": f"process/{sh}-{''.join(map(str, mask))}", "func": "capacity", "shard": {"shape": sh, "K": K, "token": mask}, "timeout": tmo})
     # two tokens: a job needing both can take one and fail on the other
-    two = [("indep2", [1, 1], [1, 0]), ("indep2", [1, 1], [1, 1])] if tier == "quick" else [("indep2", [1, 1], [1, 0]), ("indep2", [1, 1], [1, 1]), ("indep3", [1, 1, 0], [1, 0, 1]), ("indep3", [1, 1, 1], [1, 1, 1]), ("chain3", [1, 1, 1], [0, 1, 1])]
+    two = [("indep2", [1, 1], [1, 1])] if tier == "quick" else [("indep2", [1, 1], [1, 0]), ("indep2", [1, 1], [1, 1]), ("indep3", [1, 1, 0], [1, 0, 1]), ("indep3", [1, 1, 1], [1, 1, 1]), ("chain3", [1, 1, 1], [0, 1, 1])]
     for sh, m1, m2 in two:
         conds.append({"name": f"two-tokens/{sh}-{''.join(map(str, m1))}-{''.join(map(str, m2))}", "func": "capacity", "shard": {"shape": sh, "K": K, "token": m1, "token2": m2}, "timeout": tmo})
     for total, reqs in _filecombos(2, 3 if tier == "thorough" else 2) + ([] if tier == "quick" else []):
         conds.append({"name": f"file/indep2-t{total}r{''.join(map(str, reqs))}", "func": "capacity", "shard": {"shape": "indep2", "K": K, "token": [1, 1], "token_kind": "file", "total": total, "reqs": reqs}, "timeout": tmo})
     if tier == "thorough":
         conds.append({"name": "file/indep3-t2r111", "func": "capacity", "shard": {"shape": "indep3", "K": K, "token": [1, 1, 1], "token_kind": "file", "total": 2, "reqs": [1, 1, 1]}, "timeout": tmo})
-    for total, reqs in ((3, [2, 2]), (1, [1, 1])) if tier == "quick" else _filecombos(2, 3):
-        c = {"name": f"multi/t{total}r{''.join(map(str, reqs))}", "func": "multi", "shard": {"total": total, "reqs": reqs, "K": 4 if tier == "quick" else 7, "multi": 1}, "timeout": tmo}
+    for total, reqs in ((3, [2, 2]),) if tier == "quick" else _filecombos(2, 3):
+        c = {"name": f"multi/t{total}r{''.join(map(str, reqs))}", "func": "multi", "shard": {"total": total, "reqs": reqs, "K": 4 if tier == "quick" else 5, "multi": 1}, "timeout": tmo}
         conds.extend(schedlib.with_prefixes(c, 2))
     conds.append({"name": "file/indep2-t3r21", "func": "capacity", "shard": {"shape": "indep2", "K": K, "token": [1, 1], "token_kind": "file", "total": 3, "reqs": [2, 1]}, "timeout": tmo})
     heavy = ("indep2", "join3", "indep3", "mixed3", "diamond4", "fork3", "two2")
@@ -118,9 +118,9 @@ def conditions(tier):
         if c["shard"].get("multi"):
             out.append(c)
         elif c["shard"].get("token2"):
-            out.extend(schedlib.with_prefixes(c, 2 if tier == "quick" else 4))
-        elif c["shard"].get("shape") in heavy and c["shard"].get("token_kind") != "file":
             out.extend(schedlib.with_prefixes(c, 2 if tier == "quick" else 3))
+        elif c["shard"].get("shape") in heavy and c["shard"].get("token_kind") != "file":
+            out.extend(schedlib.with_prefixes(c, 2))
         else:
             out.append(c)
     return out
